@@ -106,6 +106,75 @@ fn full_str<E>(r: &Result<(Value, CodeMap), Error<E>>) -> String {
     }
 }
 
+/// The same rendering with every source offset sent through `f`.
+fn full_mapped<E>(r: &Result<(Value, CodeMap), Error<E>>, f: &dyn Fn(usize) -> String) -> String {
+    use json_syntax::parse::Error::*;
+    match r {
+        Ok((v, cm)) => {
+            let mut s = format!("OK {} |", value_str(v));
+            for (_, e) in cm.iter() {
+                s.push_str(&format!(" {}-{}-{}", f(e.span.start()), f(e.span.end()), e.volume));
+            }
+            s
+        }
+        Err(e) => {
+            let k = match e {
+                Stream(p, _) => format!("ST {}", f(*p)),
+                Unexpected(p, None) => format!("U {} -", f(*p)),
+                Unexpected(p, Some(c)) => format!("U {} {:x}", f(*p), *c as u32),
+                InvalidUnicodeCodePoint(s, c) => format!("IC {} {} {:x}", f(s.start()), f(s.end()), c),
+                MissingLowSurrogate(s, h) => format!("ML {} {} {:x}", f(s.start()), f(s.end()), h),
+                InvalidLowSurrogate(s, h, c) => format!("IL {} {} {:x} {:x}", f(s.start()), f(s.end()), h, c),
+                InvalidUtf8(p) => format!("IU {}", f(*p)),
+            };
+            format!("ERR {k} P{} S{}-{}", f(e.position()), f(e.span().start()), f(e.span().end()))
+        }
+    }
+}
+
+/// Sources whose characters declare another encoded length than their UTF-8 length (UTF-16
+/// bytes; one unit per character; irregular lengths): every reported offset is the sum of the
+/// declared lengths of the characters before it, i.e. the image of the UTF-8 offset.
+fn declared_lengths_agree(s: &str, o: u32) -> bool {
+    let reference = Value::parse_str_with(s, opts(o));
+    let schemes: [&dyn Fn(usize, char) -> usize; 3] =
+        [&|_, c| 2 * c.len_utf16(), &|_, _| 1, &|i, c| 1 + (i * 7 + c as usize) % 5];
+    let mut ok = true;
+    for len_of in schemes {
+        // UTF-8 offset of each boundary -> offset under the scheme
+        let mut table = std::collections::HashMap::new();
+        let (mut u, mut a) = (0usize, 0usize);
+        table.insert(0usize, 0usize);
+        let mut dcs = vec![];
+        for (i, c) in s.chars().enumerate() {
+            let l = len_of(i, c);
+            dcs.push(decoded_char::DecodedChar::new(c, l));
+            u += c.len_utf8();
+            a += l;
+            table.insert(u, a);
+        }
+        let want = full_mapped(&reference, &|p| match table.get(&p) {
+            Some(q) => q.to_string(),
+            None => format!("?{p}"),
+        });
+        let r = Value::parse_infallible_with(dcs.iter().copied(), opts(o));
+        let got = full_mapped(&r, &|p| p.to_string());
+        if let Ok((v, _)) = r {
+            drop_deep(v);
+        }
+        let r2 = Value::parse_with(dcs.iter().map(|c| Ok::<_, std::convert::Infallible>(*c)), opts(o));
+        let got2 = full_mapped(&r2, &|p| p.to_string());
+        if let Ok((v, _)) = r2 {
+            drop_deep(v);
+        }
+        ok &= got == want && got2 == want;
+    }
+    if let Ok((v, _)) = reference {
+        drop_deep(v);
+    }
+    ok
+}
+
 fn full<E>(r: Result<(Value, CodeMap), Error<E>>) -> String {
     let s = full_str(&r);
     if let Ok((v, _)) = r {
@@ -151,6 +220,9 @@ pub fn entry_points_agree(s: &str, o: u32) -> String {
         if got != reference {
             return format!("EP={name}");
         }
+    }
+    if !declared_lengths_agree(s, o) {
+        return "EP=declared_lengths".into();
     }
     "EP=1".into()
 }
@@ -210,7 +282,8 @@ pub fn lookups(v: &Value) -> String {
                         && styles_agree(&|| obj.get_entries(k), &|e| e as *const json_syntax::object::Entry)
                         && styles_agree(&|| obj.get_with_index(k), &|(i, v)| (i, v as *const Value))
                         && styles_agree(&|| obj.get_entries_with_index(k), &|(i, e)| (i, e as *const json_syntax::object::Entry))
-                        && styles_agree(&|| obj.indexes_of(k), &|i| i);
+                        && styles_agree(&|| obj.indexes_of(k), &|i| i)
+                        && crate::object::mut_lookup_agrees(obj, k);
                     let uniq = match obj.get_unique(k) {
                         Ok(None) => "none".to_string(),
                         Ok(Some(v)) => format!("one {}", value_str(v)),
@@ -910,6 +983,60 @@ fn e8(out: &mut Out, os: &[u32], full: bool, rng: &mut Rng) {
     }
 }
 
+/// E9: aliasing.  (a) a high-surrogate escape followed by a second escape at and around every
+/// multiple of 0x400 (all 65,536 second escapes when `full`); (b) characters that coincide with a
+/// character of the document in their low 7, 8 or 16 bits (or differ in one high bit), put in
+/// its place at every position of template documents.
+fn e9(out: &mut Out, os: &[u32], full: bool) {
+    let seconds: Vec<u32> = if full {
+        (0..0x10000).collect()
+    } else {
+        let mut v = vec![];
+        for k in 0..=64u32 {
+            for d in [-1i64, 0, 1, 0x1ff] {
+                let x = k as i64 * 0x400 + d;
+                if (0..0x10000).contains(&x) {
+                    v.push(x as u32);
+                }
+            }
+        }
+        v
+    };
+    for h in [0xd800u32, 0xd9ab, 0xdbff] {
+        for &l in &seconds {
+            for &o in os {
+                out.case(|| text_case(o, &format!("\"{}{}\"", hex4(h), hex4(l))));
+                if l % 0x400 == 0 {
+                    out.case(|| text_case(o, &format!("{{\"{}{}\":0}}", hex4(h), hex4(l))));
+                }
+            }
+        }
+    }
+    let templates = [
+        "{\"a\\n\": [1, -2.5e+3, true, false, null, \"\\u00e9\\\\/\"], \"b\" :\t{}}\r\n ",
+        " [ 0.5E-7 ,\n\"\\ud83d\\ude00\\b\\f\\r\\t\\\"\" ]",
+    ];
+    let offsets: [u32; 9] = [0x80, 0x100, 0x200, 0x2000, 0xff00, 0x10000, 0x10ff00, 0x20000, 0xe0000];
+    for t in templates {
+        let cs: Vec<u32> = t.chars().map(|c| c as u32).collect();
+        for i in 0..cs.len() {
+            for off in offsets {
+                let c = cs[i] + off;
+                if char::from_u32(c).is_none() {
+                    continue;
+                }
+                for &o in os {
+                    out.case(|| {
+                        let mut v = cs.clone();
+                        v[i] = c;
+                        cps_case(o, &v)
+                    });
+                }
+            }
+        }
+    }
+}
+
 /// The shared suite.  `os` = option records to exercise.
 pub fn suite(args: &Args, out: &mut Out, os: &[u32], weight: usize) {
     let mut rng = Rng::new(args.seed);
@@ -938,6 +1065,7 @@ pub fn suite(args: &Args, out: &mut Out, os: &[u32], weight: usize) {
     };
     e7(out, os, n7, &mut rng);
     e8(out, os, full, &mut rng);
+    e9(out, os, full && weight == 2);
 }
 
 pub fn generate_c01(args: &Args, out: &mut Out) {
